@@ -623,9 +623,87 @@ _SHM = []     # scratch directories outside common.scratch_root() (tmpfs); the c
               # leaves through os._exit, so they are removed explicitly
 
 
+# ----------------------------------------------------------------------------- restart with an event in flight
+
+def restart_case(impl, case):
+    """DigitalRFRingbuffer._restart itself (the re-verification runs in its task thread): the new observer is
+    started BEFORE the disk is listed, so files published while the listing runs are reported by events and are not
+    in the listing.  case = {tracked: [triples], vanished: [triples] (tracked, removed from disk without an event),
+    unseen: [triples] (on disk, never reported), late: [triples] (published + reported right after the listing)}.
+    Limits are far away, nothing may expire: afterwards the handler tracks exactly the eligible files on disk.
+    -> list of problems"""
+    import threading
+    P = lambda t: pstr(impl.top, tuple(t))
+    impl.force_mode = "plain"
+    impl.reset((None, 10 ** 6, None))
+    for o in props_ops():
+        impl.apply(o)
+    for t in case["tracked"] + case["vanished"] + case["unseen"]:
+        impl.apply(("W", tuple(t), 64))
+    impl.apply(("A", [tuple(t) for t in case["tracked"] + case["vanished"]], 1))
+    for t in case["vanished"]:
+        impl.apply(("X", tuple(t)))
+    rb, hd, mod = impl.rb, impl.handler, impl.rbmod
+    rb._task_threads = []
+
+    class Obs:
+        def start(self):
+            pass
+    rb._init_observer = lambda: setattr(rb, "observer", Obs())
+    real = mod.list_drf.ilsdrf
+    errs = []
+
+    def listing(*a, **k):
+        for p in real(*a, **k):
+            yield p
+        for t in case["late"]:          # the listing is complete; the running observer reports new files
+            impl.apply(("W", tuple(t), 64))
+            hd.dispatch(impl.ev.FileCreatedEvent(P(t)))
+    old_hook = threading.excepthook
+    threading.excepthook = lambda a: errs.append("%s: %s" % (a.exc_type.__name__, a.exc_value))
+    mod.list_drf.ilsdrf = listing
+    try:
+        rb._restart()
+        for th in rb._task_threads:
+            th.join(60)
+    finally:
+        mod.list_drf.ilsdrf = real
+        threading.excepthook = old_hook
+    want = sorted(P(t) for t in case["tracked"] + case["unseen"] + case["late"])
+    got = sorted(hd.records)
+    probs = []
+    if errs:
+        probs.append(("restart-verification-raised", errs[0][:200]))
+    if got != want:
+        miss = [os.path.relpath(x, impl.top) for x in want if x not in got]
+        extra = [os.path.relpath(x, impl.top) for x in got if x not in want]
+        probs.append(("restart-loses-reported-file" if miss else "restart-keeps-vanished-file", {"not tracked": miss, "tracked but gone": extra}))
+    n = sum(len(q) for _g, q in hd.queues.items())
+    if not probs and n != len(want):
+        probs.append(("restart-queues-differ-from-records", {"queued": n, "tracked": len(want)}))
+    return probs
+
+
+def restart_leg(res):
+    rng = res.rng
+    impl = Impl()
+    for i in range(12 if res.tier == "quick" else 120):
+        pool = [(g, key_of(j), s) for g in (0, 1, 2, 3) for j in range(NKEYS) for s in (0, 1)]
+        rng.shuffle(pool)
+        a, b, c, d = rng.randrange(1, 5), rng.randrange(0, 3), rng.randrange(0, 3), rng.randrange(1, 4)
+        case = {"tracked": pool[:a], "vanished": pool[a:a + b], "unseen": pool[a + b:a + b + c], "late": pool[a + b + c:a + b + c + d]}
+        case = {k: [list(t) for t in v] for k, v in case.items()}
+        res.count("restart-with-event-in-flight")
+        for sig, detail in restart_case(impl, case):
+            res.violation(sig, "DigitalRFRingbuffer._restart with file events delivered between the listing and the comparison",
+                          {"restart_case": case}, "after _restart the handler tracks exactly the files on disk "
+                          "(tracked + unseen + reported during the listing; the vanished ones dropped)", detail)
+
+
 def run(res):
     try:
         _run(res)
+        restart_leg(res)
     finally:
         global _POOL
         try:
@@ -726,6 +804,12 @@ def dec_op(o):
 def replay(res, rp):
     impl = Impl()
     i = rp["input"]
+    if "restart_case" in i:
+        probs = restart_case(impl, i["restart_case"])
+        print("restart with events in flight:", i["restart_case"])
+        for pr in probs:
+            print("VIOLATION", pr)
+        return 1 if probs else 0
     impl.force_mode = i.get("path_mode") or "plain"
     print("watched tree:", {"plain": "a plain directory", "symdir": "reached through a symbolic link to the directory",
                             "symfiles": "data files are symbolic links into an archive outside the tree"}[impl.force_mode])
